@@ -1,5 +1,384 @@
-"""Python-AST -> Lean translator for the arithmetic parts of /repo (filled in below)."""
+"""Python-AST -> Lean translator for the parts of /repo that are plain arithmetic.
+
+Regenerated on every run (DESIGN 5.1):
+  * genlm/grammar/semiring.py  ->  lean/GenlmModel/Generated/Semiring.lean
+      for every shipped weight type its `+`, `*`, `star`, `zero`, `one` as Lean definitions over an
+      abstract scalar type `T` (operations passed as type-class instances / parameters);
+  * genlm/grammar/parse/earley.py, earley_rescaled.py  ->  lean/GenlmModel/Generated/Earley.lean
+      the expression assigned to `ORDER_MAX` and the agenda priority expression.
+The law proofs (Proofs/Semiring.lean, Proofs/Prio.lean) are about these generated definitions, so they
+are re-checked against what the source says now.  Anything outside the supported subset raises
+`Untranslatable`, which the checks treat like a broken proof (never silently skipped).
+"""
+import ast
+import os
+
+from harness import common
+
+
+class Untranslatable(Exception):
+    pass
+
+
+SCALAR = {"Real", "MaxPlus", "MaxTimes", "Log"}
+PAIR = {"Expectation", "Entropy"}
+ALL = ["Boolean", "Real", "Float", "MaxPlus", "MaxTimes", "Expectation", "Entropy", "Log"]
+
+
+class Ctx:
+    def __init__(self, cls, kind, tagged):
+        self.cls, self.kind, self.tagged = cls, kind, tagged
+        self.cvals = {}
+        self.env = {}       # python local name -> lean expr (scalar)
+        self.uses = set()   # operations used
+
+
+def _attr_chain(n):
+    if isinstance(n, ast.Attribute):
+        b = _attr_chain(n.value)
+        return None if b is None else b + [n.attr]
+    if isinstance(n, ast.Name):
+        return [n.id]
+    return None
+
+
+def scal(n, c):
+    """scalar-valued python expression -> Lean term over T"""
+    if isinstance(n, ast.Constant):
+        v = n.value
+        if isinstance(v, bool) and c.kind == "bool":
+            return "true" if v else "false"
+        if isinstance(v, (int, float)) and float(v) == int(v) and 0 <= int(v) <= 9:
+            return f"({int(v)} : T)"
+        raise Untranslatable(f"constant {v!r}")
+    if isinstance(n, ast.Name):
+        if n.id in c.env:
+            return c.env[n.id]
+        raise Untranslatable(f"name {n.id}")
+    if isinstance(n, ast.UnaryOp) and isinstance(n.op, ast.USub):
+        ch = _attr_chain(n.operand)
+        if ch == ["np", "inf"]:
+            c.uses.add("negInf")
+            return "negInf"
+        c.uses.add("neg")
+        return f"(- {scal(n.operand, c)})"
+    if isinstance(n, ast.BinOp):
+        op = {ast.Add: "+", ast.Sub: "-", ast.Mult: "*", ast.Div: "/"}.get(type(n.op))
+        if op is None:
+            raise Untranslatable(f"operator {ast.dump(n.op)}")
+        c.uses.add({"+": "add", "-": "sub", "*": "mul", "/": "div"}[op])
+        return f"({scal(n.left, c)} {op} {scal(n.right, c)})"
+    if isinstance(n, ast.Subscript):
+        ch = _attr_chain(n.value)
+        if ch in (["self", "score"], ["other", "score"]) and isinstance(n.slice, ast.Constant) and n.slice.value in (0, 1) and c.kind == "pair":
+            v = 'a' if ch[0] == 'self' else 'b'
+            return f"{v}.2.{n.slice.value + 1}" if c.tagged else f"{v}.{n.slice.value + 1}"
+        raise Untranslatable("subscript")
+    if isinstance(n, ast.Attribute):
+        ch = _attr_chain(n)
+        if ch in (["self", "score"], ["other", "score"]) and c.kind in ("scalar", "bool"):
+            return "a" if ch[0] == "self" else "b"
+        raise Untranslatable(f"attribute {ch}")
+    if isinstance(n, ast.Call):
+        ch = _attr_chain(n.func)
+        if ch == ["max"] and len(n.args) == 2:
+            c.uses.add("max")
+            return f"(max {scal(n.args[0], c)} {scal(n.args[1], c)})"
+        if ch in (["np", "log"], ["np", "exp"], ["np", "log1p"]) and len(n.args) == 1:
+            c.uses.add(ch[1])
+            return f"({ch[1]} {scal(n.args[0], c)})"
+        if ch == ["bool"] and c.kind == "bool":
+            return scal(n.args[0], c)
+        raise Untranslatable(f"call {ch}")
+    if isinstance(n, ast.BoolOp) and c.kind == "bool":
+        op = "||" if isinstance(n.op, ast.Or) else "&&"
+        return "(" + f" {op} ".join(scal(v, c) for v in n.values) + ")"
+    raise Untranslatable(ast.dump(n)[:80])
+
+
+def value(n, c):
+    """semiring-valued python expression -> Lean term of the value type"""
+    ch = _attr_chain(n)
+    if ch is not None:
+        if ch == ["self"]:
+            return "a"
+        if ch == ["other"]:
+            return "b"
+        if len(ch) == 2 and ch[0] in ("self", "other", c.cls) and ch[1] in ("zero", "one"):
+            return c.cvals[ch[1]]
+        if c.kind == "float" and ch == ["self"]:
+            return "a"
+    if isinstance(n, ast.Call):
+        f = _attr_chain(n.func)
+        if f == [c.cls]:
+            args = [scal(x, c) for x in n.args]
+            if c.kind == "pair" and len(args) == 2:
+                body = f"({args[0]}, {args[1]})"
+                return f"(Tag.fresh, {body})" if c.tagged else body
+            if c.kind in ("scalar", "bool") and len(args) == 1:
+                return args[0]
+        raise Untranslatable(f"value call {f}")
+    if c.kind == "float":
+        return scal_float(n, c)
+    raise Untranslatable("value " + ast.dump(n)[:80])
+
+
+def scal_float(n, c):
+    # Float.star: `1 / (1 - self)` — `self` is the number itself
+    if isinstance(n, ast.Name) and n.id == "self":
+        return "a"
+    if isinstance(n, ast.BinOp):
+        op = {ast.Add: "+", ast.Sub: "-", ast.Mult: "*", ast.Div: "/"}.get(type(n.op))
+        if op is None:
+            raise Untranslatable("float op")
+        return f"({scal_float(n.left, c)} {op} {scal_float(n.right, c)})"
+    if isinstance(n, ast.Constant) and isinstance(n.value, (int, float)) and float(n.value) == int(n.value):
+        return f"({int(n.value)} : T)"
+    raise Untranslatable("float expr " + ast.dump(n)[:60])
+
+
+def test(n, c):
+    """python condition -> Lean Bool/Prop term"""
+    if isinstance(n, ast.Compare) and len(n.ops) == 1:
+        l, r, op = n.left, n.comparators[0], n.ops[0]
+        lc, rc = _attr_chain(l), _attr_chain(r)
+        if isinstance(op, ast.Is) and lc in (["self"], ["other"]) and rc and rc[-1] in ("zero", "one") and c.tagged:
+            v = "a" if lc == ["self"] else "b"
+            return f"({v}.1 = Tag.{rc[-1]})"
+        if isinstance(op, ast.Eq) and lc in (["self"], ["other"]) and rc and rc[-1] in ("zero", "one") and c.kind == "scalar":
+            v = "a" if lc == ["self"] else "b"
+            return f"({v} = {c.cvals[rc[-1]]})"
+        if isinstance(op, (ast.Gt, ast.Lt, ast.GtE, ast.LtE)):
+            s = {ast.Gt: ">", ast.Lt: "<", ast.GtE: "≥", ast.LtE: "≤"}[type(op)]
+            c.uses.add("lt")
+            return f"({scal(l, c)} {s} {scal(r, c)})"
+    if c.kind == "bool":
+        return f"({scal(n, c)} = true)"
+    raise Untranslatable("test " + ast.dump(n)[:80])
+
+
+def block(stmts, c):
+    """statement list ending in return (along every path) -> Lean term"""
+    if not stmts:
+        raise Untranslatable("fall-through without return")
+    s, rest = stmts[0], stmts[1:]
+    if isinstance(s, ast.Expr) and isinstance(s.value, ast.Constant):  # docstring
+        return block(rest, c)
+    if isinstance(s, ast.Return):
+        return value(s.value, c)
+    if isinstance(s, ast.If):
+        t = test(s.test, c)
+        thn = block(s.body, c)
+        els = block(s.orelse if s.orelse else rest, c)
+        return f"(if {t} then {thn} else {els})"
+    if isinstance(s, ast.Assign) and len(s.targets) == 1:
+        tg = s.targets[0]
+        if isinstance(tg, ast.Name):
+            e = scal(s.value, c)
+            inner = Ctx(c.cls, c.kind, c.tagged)
+            inner.cvals = c.cvals
+            inner.env = dict(c.env)
+            inner.env[tg.id] = tg.id
+            inner.uses = c.uses
+            return f"(let {tg.id} := {e}; {block(rest, inner)})"
+        if isinstance(tg, ast.Tuple) and _attr_chain(s.value) in (["self", "score"], ["other", "score"]) and c.kind == "pair":
+            v = "a" if _attr_chain(s.value)[0] == "self" else "b"
+            inner = Ctx(c.cls, c.kind, c.tagged)
+            inner.cvals = c.cvals
+            inner.env = dict(c.env)
+            inner.uses = c.uses
+            for k, el in enumerate(tg.elts):
+                inner.env[el.id] = f"{v}.2.{k + 1}" if c.tagged else f"{v}.{k + 1}"
+            return block(rest, inner)
+    raise Untranslatable("statement " + ast.dump(s)[:80])
+
+
+def translate_semiring(src):
+    tree = ast.parse(src)
+    classes = {n.name: n for n in tree.body if isinstance(n, ast.ClassDef)}
+    consts = {}
+    for n in tree.body:
+        if isinstance(n, ast.Assign) and len(n.targets) == 1:
+            ch = _attr_chain(n.targets[0])
+            if ch and len(ch) == 2 and ch[0] in classes and ch[1] in ("zero", "one"):
+                consts[(ch[0], ch[1])] = n.value
+    out = ["/- GENERATED by harness/translate.py from genlm/grammar/semiring.py — do not edit -/",
+           "namespace Genlm.Gen", "",
+           "/-- identity tag of a value: Python `x is R.zero` / `x is R.one` tests -/",
+           "inductive Tag | zero | one | fresh", "deriving DecidableEq, Repr", ""]
+    for name in ALL:
+        if name not in classes:
+            raise Untranslatable(f"class {name} missing")
+        cls = classes[name]
+        meths = {m.name: m for m in cls.body if isinstance(m, ast.FunctionDef)}
+        kind = "bool" if name == "Boolean" else "float" if name == "Float" else "pair" if name in PAIR else "scalar"
+        src_txt = ast.unparse(cls)
+        tagged = kind == "pair" and (" is self.zero" in src_txt or " is self.one" in src_txt)
+        uses = set()
+        cvals = {}
+
+        def mk(cname):
+            c = Ctx(name, kind, tagged)
+            c.env = {}
+            c.uses = uses
+            c.cvals = cvals
+            return c
+        # constants
+        for cn in ("zero", "one"):
+            if kind == "float":
+                val = next((s.value for s in cls.body if isinstance(s, ast.Assign) and _attr_chain(s.targets[0]) == [cn]), None)
+                if val is None:
+                    raise Untranslatable(f"Float.{cn}")
+                cvals[cn] = scal_float(val, mk(cn))
+            else:
+                e = consts.get((name, cn))
+                if e is None:
+                    raise Untranslatable(f"{name}.{cn} not assigned")
+                c = mk(cn)
+                if isinstance(e, ast.Call) and _attr_chain(e.func) == [name]:
+                    args = [scal(x, c) for x in e.args]
+                elif isinstance(e, ast.Call) and _attr_chain(e.func) == [name, "from_string"] and isinstance(e.args[0], ast.Constant):
+                    # Expectation.from_string("<p,r>")
+                    import re
+                    m = re.fullmatch(r"<\s*([0-9.]+)\s*,\s*([0-9.]+)\s*>", e.args[0].value)
+                    if not m:
+                        raise Untranslatable("from_string constant")
+                    args = [f"({int(float(m.group(1)))} : T)", f"({int(float(m.group(2)))} : T)"]
+                else:
+                    raise Untranslatable(f"{name}.{cn} initialiser")
+                if kind == "pair":
+                    body = f"({args[0]}, {args[1]})"
+                    cvals[cn] = f"(Tag.{cn}, {body})" if tagged else body
+                else:
+                    cvals[cn] = args[0]
+        # operations
+        ops = {}
+        for py, ln in (("__add__", "add"), ("__mul__", "mul"), ("star", "star")):
+            if kind == "float" and py != "star":
+                ops[ln] = "(a + b)" if ln == "add" else "(a * b)"   # Python's own + and * on numbers
+                uses.add("add" if ln == "add" else "mul")
+                continue
+            if py not in meths:
+                raise Untranslatable(f"{name}.{py} missing")
+            c = mk(ln)
+            ops[ln] = block(meths[py].body, c)
+            if kind == "float":
+                uses.update({"sub", "div"})
+        # header
+        if kind == "bool":
+            vt, binders = "Bool", ""
+        else:
+            vt = "T" if kind in ("scalar", "float") else ("(Tag × T × T)" if tagged else "(T × T)")
+            inst = ["[OfNat T 0] [OfNat T 1]"]
+            for u, i in (("add", "[Add T]"), ("sub", "[Sub T]"), ("mul", "[Mul T]"), ("div", "[Div T]"), ("max", "[Max T]"),
+                         ("neg", "[Neg T]"), ("lt", "[LT T] [DecidableLT T] [LE T] [DecidableLE T]")):
+                if u in uses:
+                    inst.append(i)
+            if kind == "scalar" and any(" = " in ops[k] for k in ops):
+                inst.append("[DecidableEq T]")
+            params = []
+            if "negInf" in uses:
+                params.append("(negInf : T)")
+            for fn in ("log", "exp", "log1p"):
+                if fn in uses:
+                    params.append(f"({fn} : T → T)")
+            binders = "variable {T : Type} " + " ".join(inst) + (" " + " ".join(params) if params else "")
+        out.append(f"namespace {name}")
+        out.append("section")
+        if binders:
+            out.append(binders)
+        out.append(f"def zeroV : {vt} := {cvals['zero']}")
+        out.append(f"def oneV : {vt} := {cvals['one']}")
+        extra = ""
+        if kind != "bool":
+            ps = [p for p in ("negInf",) if p in uses]
+        # definitions that use zeroV/oneV need the section parameters applied implicitly: Lean includes
+        # section `variable`s that are mentioned, so refer to constants through local notation
+        out.append(f"def add (a b : {vt}) : {vt} := {ops['add']}")
+        out.append(f"def mul (a b : {vt}) : {vt} := {ops['mul']}")
+        out.append(f"def star (a : {vt}) : {vt} := {ops['star']}")
+        out.append("end")
+        out.append(f"end {name}")
+        out.append("")
+    out.append("end Genlm.Gen")
+    return "\n".join(out) + "\n"
+
+
+def _find_assign(tree, pred):
+    for n in ast.walk(tree):
+        if isinstance(n, ast.Assign) and len(n.targets) == 1 and pred(n.targets[0]):
+            return n.value
+    return None
+
+
+def _int_expr(n, names):
+    """integer expression over the given names -> Lean Int term"""
+    if isinstance(n, ast.Constant) and isinstance(n.value, int):
+        return f"({n.value} : Int)"
+    if isinstance(n, ast.UnaryOp) and isinstance(n.op, ast.USub):
+        return f"(- {_int_expr(n.operand, names)})"
+    if isinstance(n, ast.BinOp):
+        op = {ast.Add: "+", ast.Sub: "-", ast.Mult: "*"}.get(type(n.op))
+        if op is None:
+            raise Untranslatable("int op")
+        return f"({_int_expr(n.left, names)} {op} {_int_expr(n.right, names)})"
+    ch = _attr_chain(n)
+    if ch is not None:
+        key = ".".join(ch)
+        if key in names:
+            return names[key]
+    if isinstance(n, ast.Subscript):
+        ch = _attr_chain(n.value)
+        if ch == ["self", "order"]:
+            return names["order"]
+    if isinstance(n, ast.Call) and _attr_chain(n.func) == ["max"] and len(n.args) == 1 and ast.unparse(n.args[0]) == "self.order.values()":
+        return names["maxorder"]
+    raise Untranslatable("int expr " + ast.unparse(n)[:60])
+
+
+def translate_earley(src, ns):
+    tree = ast.parse(src)
+    om = _find_assign(tree, lambda t: _attr_chain(t) == ["self", "ORDER_MAX"])
+    if om is None:
+        raise Untranslatable("ORDER_MAX assignment not found")
+    pr = _find_assign(tree, lambda t: isinstance(t, ast.Subscript) and _attr_chain(t.value) in (["Q"], ["col", "Q"]))
+    if pr is None:
+        raise Untranslatable("priority assignment not found")
+    om_l = _int_expr(om, {"maxorder": "m"})
+    pr_l = _int_expr(pr, {"K": "K", "I": "I", "self.ORDER_MAX": "OM", "order": "ord"})
+    return (f"namespace {ns}\n/-- `self.ORDER_MAX = {ast.unparse(om)}` with `m = max(self.order.values())` -/\n"
+            f"def orderMax (m : Int) : Int := {om_l}\n/-- agenda priority `{ast.unparse(pr)}` -/\n"
+            f"def prio (K I OM ord : Int) : Int := {pr_l}\nend {ns}\n")
+
+
+def _write_if_changed(path, txt):
+    os.makedirs(os.path.dirname(path), exist_ok=True)
+    if not os.path.exists(path) or open(path, encoding="utf-8").read() != txt:
+        open(path, "w", encoding="utf-8").write(txt)
 
 
 def run():
-    return {"ok": True, "log": "no translation units yet"}
+    gen = os.path.join(common.LEAN, "GenlmModel", "Generated")
+    log, ok = [], True
+    try:
+        src = open(os.path.join(common.REPO, "genlm", "grammar", "semiring.py"), encoding="utf-8").read()
+        _write_if_changed(os.path.join(gen, "Semiring.lean"), translate_semiring(src))
+        log.append("semiring.py translated")
+    except Untranslatable as e:
+        ok = False
+        log.append(f"semiring.py: untranslatable: {e}")
+    try:
+        parts = ["/- GENERATED by harness/translate.py from genlm/grammar/parse/earley*.py — do not edit -/\nnamespace Genlm.Gen\n"]
+        for f, ns in (("earley.py", "Earley"), ("earley_rescaled.py", "EarleyRescaled")):
+            parts.append(translate_earley(open(os.path.join(common.REPO, "genlm", "grammar", "parse", f), encoding="utf-8").read(), ns))
+        parts.append("end Genlm.Gen\n")
+        _write_if_changed(os.path.join(gen, "Earley.lean"), "\n".join(parts))
+        log.append("earley priorities translated")
+    except Untranslatable as e:
+        ok = False
+        log.append(f"earley: untranslatable: {e}")
+    return {"ok": ok, "log": "; ".join(log)}
+
+
+if __name__ == "__main__":
+    print(run())
